@@ -244,10 +244,14 @@ def build_conv_burst(dwm, dws, depth_s, K):
     return h
 
 
-def build_cache(cachesize, dwm, dws, depth_s, K, reverse=True):
+def build_cache(cachesize, dwm, dws, depth_s, K, reverse=True, anyslave=False):
     from litex.soc.interconnect import wishbone
     top = Top()
-    sram, sbus = _sram(dws, depth_s, aw=6)
+    if anyslave:
+        sbus = wishbone.Interface(data_width=dws, adr_width=6)
+        sram = FreeSlave(sbus, depth_s)
+    else:
+        sram, sbus = _sram(dws, depth_s, aw=6)
     mbus = wishbone.Interface(data_width=dwm, adr_width=6 + (log2_int(dws // dwm) if dws > dwm else -log2_int(dwm // dws) if dwm > dws else 0))
     top.submodules.cache = wishbone.Cache(cachesize, mbus, sbus, reverse=reverse)
     top.submodules.sram = sram
@@ -257,16 +261,16 @@ def build_cache(cachesize, dwm, dws, depth_s, K, reverse=True):
     evs = top.reg(1, "saw_evict")
     top.sync += If(sbus.cyc & sbus.stb & sbus.we & sbus.ack, evs.eq(1))
     top.comb += ev.eq(evs & mm.w_rw)
-    name = "cache%d_%dto%d%s" % (cachesize, dwm, dws, "" if reverse else "_norev")
+    name = "cache%d_%dto%d%s%s" % (cachesize, dwm, dws, "" if reverse else "_norev", "_anyslave" if anyslave else "")
     # excuse for the listed finding (no valid bit): no access to a line whose tag is 0
     exc_tag = Signal(name_override="exc_tag_nonzero")
     tag_shift = log2_int(cachesize)
     top.comb += exc_tag.eq(~(mbus.cyc & mbus.stb) | ((mbus.adr >> tag_shift) != 0))
-    h = H(name, top, mm.free, rigid=[mm.A, mm.L], assume=[mm.asm, mm.asm_idx], excuses=dict(read_returns_last_enabled_write=[exc_tag]),
+    h = H(name, top, mm.free + (sram.free if anyslave else []), rigid=[mm.A, mm.L], assume=[mm.asm, mm.asm_idx], excuses=dict(read_returns_last_enabled_write=[exc_tag]),
           bad=dict(read_returns_last_enabled_write=mm.bad_read, ack_only_for_request=mm.bad_ack), witness=dict(write_other_read=mm.w_rw, dirty_eviction_then_read=ev),
-          K=K, funcs=FUNCS, cfg=dict(cachesize=cachesize, master_width=dwm, slave_width=dws, slave_depth=depth_s, reverse=reverse),
+          K=K, funcs=FUNCS, cfg=dict(cachesize=cachesize, master_width=dwm, slave_width=dws, slave_depth=depth_s, reverse=reverse, slave="symbolic latency >= 0" if anyslave else "wishbone.SRAM"),
           show=mm.showl + [sbus.cyc, sbus.stb, sbus.we, sbus.adr, sbus.ack], vcycles=30, timeout_s=2400)
-    h.init_free = "mem:backing"
+    h.init_free = list(sram.words) if anyslave else "mem:backing"
     return h
 
 
@@ -392,6 +396,7 @@ def jobs(tier):
         caches += [(8, 8, 8, 32), (4, 16, 8, 16), (4, 8, 32, 4), (2, 8, 8, 8)]
     for (cs, dwm, dws, d) in caches:
         js.append(Job("cache%d_%dto%d" % (cs, dwm, dws), build_cache, dict(cachesize=cs, dwm=dwm, dws=dws, depth_s=d, K=(16 if T else 12)), cost=30, timeout_s=3400))
+    js.append(Job("cache2_8to8_anyslave", build_cache, dict(cachesize=2, dwm=8, dws=8, depth_s=8, K=(14 if T else 12), anyslave=True), cost=40, timeout_s=3400))
     js.append(Job("warmcache4_8to8", build_cache_warm, dict(cachesize=4, depth_s=16, K=(18 if T else 16)), cost=60, timeout_s=3400))
     js.append(Job("down_burst_16to8", build_conv_burst, dict(dwm=16, dws=8, depth_s=32, K=(16 if T else 12)), cost=40, timeout_s=3400))
     for (dwm, dws, d, wr) in ([(8, 32, 4, False), (32, 8, 8, False), (16, 32, 4, True)] + ([(8, 16, 4, False), (16, 8, 8, False), (32, 16, 4, True), (64, 8, 16, False)] if T else [])):
